@@ -1,3 +1,4 @@
+mod c12;
 mod c13;
 mod common;
 
@@ -42,6 +43,7 @@ fn main() {
     }
     common::silence_panics();
     let report = match prop.as_str() {
+        "C12" => c12::run(&args),
         "C13" => c13::run(&args),
         _ => {
             eprintln!("unknown property {prop}");
